@@ -137,7 +137,7 @@ func init() {
 }
 
 func init() {
-	register(&CheckDef{ID: "C01", Level: "model_checking", Timeout: [2]int{500, 3000},
+	register(&CheckDef{ID: "C01", Level: "model_checking", Timeout: [2]int{300, 3000},
 		Assumptions: []string{
 			"input stream model zzMemReader: delivers data[:L] (every truncation point) then io.EOF or an injected error",
 			"bufio.Reader, encoding/binary, io.LimitReader interpreted from their real SSA; sync.Pool.Get returns New(); zerolog at the default (panic) level; errors/fmt opaque",
@@ -168,5 +168,22 @@ func init() {
 	register(&CheckDef{ID: "C10", Level: "model_checking", Timeout: [2]int{300, 1200},
 		Assumptions: []string{"input stream model zzMemReader; bufio.Reader and io.LimitedReader interpreted from their real SSA; the Exif callback consumes its declared length (premise of the property)"},
 		Bounds: map[string]interface{}{"sequences": "SOI, X, Exif-APP1 (16 payload bytes), Y, XMP-APP1 (12 packet bytes), DQT, 70 data bytes, and the order with XMP first; X = Y from {none, APP0, APP2, COM, DRI, foreign APP1, APPn holding SOI/EOI bytes}; payload bytes arbitrary incl. 0xFF; XMP callback consumption 0..15 bytes", "nonmeta": "one APPn/COM/SOF segment with 40 arbitrary payload bytes"},
+	})
+}
+
+func init() {
+	register(&CheckDef{ID: "C08", Level: "model_checking", Timeout: [2]int{300, 1200},
+		Assumptions: []string{
+			"chunked stream model: every Read delivers an arbitrary count 1 <= n <= min(len(p), left) for the first three reads (case split; later reads deliver all that is asked), optionally the last bytes together with io.EOF",
+			"the buffered entry points (Decode, DecodeTiff, DecodeJPEG, DecodeCR3, ScanJPEG, ScanTiffHeader) use only bufio.Peek/Discard; their independence from chunking is bufio's contract and is assumed, not checked",
+		},
+		Bounds: map[string]interface{}{"png": "signature + 16 arbitrary bytes (2 chunk headers)", "exif2.Parse": "3-entry IFD0 skeleton (2 SHORT, 1 ASCII[7] out of line), both byte orders"},
+	})
+}
+
+func init() {
+	register(&CheckDef{ID: "C11", Level: "model_checking", Timeout: [2]int{300, 1200},
+		Assumptions: []string{"input stream model zzMemReader; bufio interpreted; logger at the default level", "one-step lemmas start from an arbitrary chain state (remain values arbitrary non-negative, not assumed consistent)"},
+		Bounds: map[string]interface{}{"lemmas": "chains of depth 2 and 3, every int argument (negative included), 8 operations", "framing": "5 top-level types, well-formed and size-overstating children", "payload": "CMT1..4 with 24 arbitrary payload bytes"},
 	})
 }
